@@ -4079,6 +4079,8 @@ def speigs(a, charge_sector, k, *args, **kwargs):
         qi = qinds[0]
         if np.any(a.chinfo.make_valid(a.legs[0].get_charge(qi)) != charge_sector):
             continue
+        if not np.any(block):
+            break  # stored, but identically zero (ARPACK fails on it): handled like a missing block below
         block_exists = True  # found the correct `block`
         res = _sp_speigs(block, k, *args, **kwargs)
         if ret_eigv:
